@@ -120,6 +120,7 @@ func runC01(e *env) {
 		specs = append(specs, synthModule(e.r, prof, i))
 	}
 	obs := observeAll(specs, "gounions,randdata,sqlcrud", 14)
+	defer e.writeAnaCross("C01", specs, obs)
 	type job struct {
 		spec *modSpec
 		tgt  string
